@@ -65,6 +65,11 @@ pub trait OutPort {
     fn drain(&mut self, k: usize) -> (Vec<u64>, Vec<(usize, u64, u64)>);
     fn drop_reader(&mut self);
     fn advance(&mut self, k: usize);
+    /// called after every work(): an output that is not a stream (a sink's storage) reports how much the
+    /// call added; a stream output answers `None` and the hook counters are used
+    fn after_work(&mut self) -> Option<usize> {
+        None
+    }
 }
 
 pub struct Feeder<T: Elem> {
@@ -156,12 +161,17 @@ impl<T: Elem> OutPort for Drainer<T> {
     fn advance(&mut self, _k: usize) {}
 }
 
-/// A fresh one-page stream whose positions have been advanced by `adv` samples
+/// Size in bytes of the streams of the case being built: one page, except in some self-checking cases
+/// (sixteen pages, so that windows beyond 8192 samples occur).
+pub static STREAM_BYTES: std::sync::atomic::AtomicUsize = std::sync::atomic::AtomicUsize::new(4096);
+
+/// A fresh stream whose positions have been advanced by `adv` samples
 /// (so the test data straddles the wrap point). Returns both ends.
 pub fn stream_at<T: Elem>(adv: usize) -> (WriteStream<T>, ReadStream<T>) {
-    verif::set_stream_size(4096);
+    let bytes = STREAM_BYTES.load(std::sync::atomic::Ordering::SeqCst);
+    verif::set_stream_size(bytes);
     let (w, r) = new_stream::<T>();
-    let cap = 4096 / T::SIZE;
+    let cap = bytes / T::SIZE;
     let mut left = adv % cap;
     while left > 0 {
         let wb = w.write_buf().unwrap();
@@ -177,7 +187,7 @@ pub fn stream_at<T: Elem>(adv: usize) -> (WriteStream<T>, ReadStream<T>) {
 pub fn feeder<T: Elem>(adv: usize) -> (Box<Feeder<T>>, ReadStream<T>) {
     let (w, r) = stream_at::<T>(adv);
     let id = StreamWait::verif_id(&w);
-    (Box::new(Feeder { w: Some(w), id, cap: 4096 / T::SIZE }), r)
+    (Box::new(Feeder { w: Some(w), id, cap: STREAM_BYTES.load(std::sync::atomic::Ordering::SeqCst) / T::SIZE }), r)
 }
 
 pub fn drainer<T: Elem>(r: ReadStream<T>) -> Box<Drainer<T>> {
@@ -186,7 +196,7 @@ pub fn drainer<T: Elem>(r: ReadStream<T>) -> Box<Drainer<T>> {
 }
 
 fn r_cap<T: Elem>() -> usize {
-    4096 / T::SIZE
+    STREAM_BYTES.load(std::sync::atomic::Ordering::SeqCst) / T::SIZE
 }
 
 /// Everything the harness holds for one case.
@@ -308,6 +318,11 @@ pub struct RunOut {
     pub panicked: bool,
     /// the adaptive flush ran out of iterations: the block never settled
     pub exhausted: bool,
+    /// `eof()` was asked after every wait verdict, as both runners do before retiring a block: the first call
+    /// after which it answered true, with the number of items delivered per output up to then
+    pub eof_true_at: Option<(usize, Vec<usize>)>,
+    /// items delivered per output over the whole run
+    pub produced_total: Vec<usize>,
 }
 
 /// Run the schedule on the real block; returns the observed trace (same format as the model's).
@@ -357,8 +372,12 @@ pub fn run_case_full(mut rig: Rig, ins: &[InSpec], acts: &[Act], adaptive_flush:
     let mut errored = false;
     let mut acts: Vec<Act> = acts.to_vec();
     let mut pc = 0usize;
-    let mut flush_left = if adaptive_flush { 20_000usize } else { 0 };
+    // a block without inputs never runs dry: a few rounds, and the caller compares prefixes
+    let no_inputs = rig.ins.is_empty();
+    let mut flush_left = if !adaptive_flush { 0 } else if no_inputs { 6 } else { 20_000usize };
     let mut flush_prev: Option<(Vec<usize>, Vec<usize>, usize)> = None;
+    let mut eof_true_at: Option<(usize, Vec<usize>)> = None;
+    let mut produced_total: Vec<usize> = vec![0; rig.outs.len()];
     while pc < acts.len() || flush_left > 0 {
         if pc >= acts.len() {
             // adaptive flush: keep the block running until it has nothing left to do
@@ -512,16 +531,34 @@ pub fn run_case_full(mut rig: Rig, ins: &[InSpec], acts: &[Act], adaptive_flush:
                     continue;
                 }
                 let consumed_n: Vec<usize> = rig.ins.iter().map(|i| moves_of(i.id()).0).collect();
-                let produced_n: Vec<usize> = rig.outs.iter().map(|o| moves_of(o.id()).1).collect();
+                let produced_n: Vec<usize> = rig
+                    .outs
+                    .iter_mut()
+                    .map(|o| match o.after_work() {
+                        Some(n) => n,
+                        None => moves_of(o.id()).1,
+                    })
+                    .collect();
                 for (j, c) in consumed_n.iter().enumerate() {
                     in_used[j] -= (*c).min(in_used[j]);
                 }
                 for (j, p) in produced_n.iter().enumerate() {
                     out_used[j] += *p;
+                    produced_total[j] += *p;
+                }
+                // what Graph and MTGraph ask after a wait verdict; "true" retires the block
+                let said_eof = if v.starts_with('I') || v.starts_with('O') || v == "Fn" {
+                    let block = &mut rig.block;
+                    quiet(move || block.eof()).unwrap_or(false)
+                } else {
+                    false
+                };
+                if said_eof && eof_true_at.is_none() {
+                    eof_true_at = Some((calls.len(), produced_total.clone()));
                 }
                 let consumed: Vec<String> = consumed_n.iter().map(|c| c.to_string()).collect();
                 let produced: Vec<String> = produced_n.iter().map(|c| c.to_string()).collect();
-                trace.push(format!("W:{v}:{}:{}", consumed.join(","), produced.join(",")));
+                trace.push(format!("W:{v}:{}:{}{}", consumed.join(","), produced.join(","), if said_eof { ":e" } else { "" }));
                 calls.push(CallRec {
                     verdict: v,
                     consumed: consumed.iter().map(|c| c.parse().unwrap_or(usize::MAX)).collect(),
@@ -554,7 +591,9 @@ pub fn run_case_full(mut rig: Rig, ins: &[InSpec], acts: &[Act], adaptive_flush:
         ctags,
         eof_flag,
         panicked,
-        exhausted: adaptive_flush && flush_left == 0,
+        exhausted: adaptive_flush && flush_left == 0 && !no_inputs,
+        eof_true_at,
+        produced_total,
     }
 }
 
@@ -850,4 +889,56 @@ pub fn pkt_feeder<T: Elem>() -> (Box<PktFeeder<T>>, NCReadStream<Vec<T>>) {
 pub fn pkt_drainer<T: Elem>(r: NCReadStream<Vec<T>>) -> Box<PktDrainer<T>> {
     let id = StreamWait::verif_id(&r);
     Box::new(PktDrainer { r: Some(r), id })
+}
+
+/// The storage of a `VectorSink` presented as an output: `Drain` hands over what was stored since the last
+/// drain. Stored tag positions are relative to the read window of the call that stored them; they are
+/// re-based to positions in the storage (samples stored before that call + position), and a tag beyond the
+/// stored samples (only possible in the call that fills the sink) is not reported.
+pub struct HookOut {
+    pub hook: rustradio::vector_sink::Hook<u8>,
+    taken: usize,
+    seen_s: usize,
+    seen_t: usize,
+    tags: Vec<(usize, u64, u64)>,
+}
+pub fn hook_out(hook: rustradio::vector_sink::Hook<u8>) -> Box<HookOut> {
+    Box::new(HookOut { hook, taken: 0, seen_s: 0, seen_t: 0, tags: vec![] })
+}
+impl OutPort for HookOut {
+    fn id(&self) -> usize {
+        usize::MAX - 77
+    }
+    fn len(&self) -> usize {
+        self.seen_s - self.taken
+    }
+    fn cap(&self) -> usize {
+        PKT_CAP
+    }
+    fn drain(&mut self, k: usize) -> (Vec<u64>, Vec<(usize, u64, u64)>) {
+        let d = self.hook.data();
+        let n = k.min(self.seen_s - self.taken);
+        let vals: Vec<u64> = d.samples()[self.taken..self.taken + n].iter().map(|v| *v as u64).collect();
+        let (lo, hi) = (self.taken, self.taken + n);
+        let ts = self.tags.iter().filter(|t| t.0 >= lo && t.0 < hi).map(|t| (t.0 - lo, t.1, t.2)).collect();
+        self.taken += n;
+        (vals, ts)
+    }
+    fn drop_reader(&mut self) {}
+    fn advance(&mut self, _k: usize) {}
+    fn after_work(&mut self) -> Option<usize> {
+        let d = self.hook.data();
+        let now = d.samples().len();
+        for t in &d.tags()[self.seen_t..] {
+            let abs = self.seen_s + t.pos();
+            if abs < now {
+                let (k, v) = tag_code(t);
+                self.tags.push((abs, k, v));
+            }
+        }
+        self.seen_t = d.tags().len();
+        let added = now - self.seen_s;
+        self.seen_s = now;
+        Some(added)
+    }
 }
